@@ -190,6 +190,7 @@ package pebbledb
 //@   include snapshotproto
 //@   ensures [C11.snap] true
 //@   ensures [C05.zero] true
+//@   ensures [C06.zero] true
 
 // C08 (exact ⊆ full): before the record is fetched, a hit that was not seen before is dropped only when its packed
 // entropy lies outside the tolerance MatchSignature itself will apply (the signature's own, or the scanner's when
